@@ -29,9 +29,13 @@ func zzURLQuery(u *url.URL) url.Values { return url.Values{} }
 //
 //gosmt:stub github.com/alecthomas/chroma/v2/quick.Highlight
 func zzHighlight(w io.Writer, source, lexer, formatter, style string) error {
-	_, err := io.WriteString(w, source)
+	_, err := io.WriteString(w, source+strings.Repeat("\n", zzExtraLines))
 	return err
 }
+
+// zzExtraLines: the highlighter normalises other line terminators to "\n", so its
+// output can have more lines than the raw text split at "\n".
+var zzExtraLines int
 
 func zzGitEntrypoint(scheme, path string) string { return scheme + "://github.com" + path }
 
@@ -73,6 +77,12 @@ func ZZ_C16_Snippet() {
 	line := zz.Choose("line", 10)
 	col := zz.Choose("column", 5)
 	pad := zz.Choose("padding", 4)
+	zzExtraLines = zz.Choose("highlighter_extra_lines", 3)
+	zz.Assume(zzExtraLines <= n) // each extra line comes from a stray CR inside one of the n lines
+	if zz.Native() && zzExtraLines > 0 {
+		// natively: stray CR line breaks make chroma emit more lines than strings.Split sees
+		src = strings.Replace(src, "xy\n", "x\ry\n", zzExtraLines)
+	}
 	s := NewSnippet([]byte(src), WithLine(line), WithColumn(col), WithPadding(pad))
 	_ = s.String()
 	if zz.Twin() {
